@@ -50,3 +50,13 @@ Print Assumptions C06_switches_irrelevant.
 From FG.gen Require Import Sites_gen.
 Theorem C06_sites_recognised : forallb (fun b => b) sites_C06 = true.
 Proof. vm_compute. reflexivity. Qed.
+
+(* tie to the source: the constants the model copies from the Go source equal what the running engine reports
+   (gen/Tables_gen.v is regenerated on every run by `verifh dump-tables`) *)
+From FG.gen Require Import Tables_gen.
+From Coq Require Import ZArith NArith. (* consts *)
+From FG Require ConstTie.
+From FG Require GameTree.
+Theorem C06_model_constants_dumped :
+  GameTree.MATE = c_value_checkmate /\ GameTree.MAXPLY = c_max_depth.
+Proof. exact ConstTie.gametree_constants_dumped. Qed.
